@@ -15,6 +15,7 @@ EXPLANATION = ("Deductive: density scaling is a relational obligation on two sym
                "count scaling / regrouping follow from neutron_scattering == documented equations over compound.atoms (C03 units, "
                "re-discharged here) plus the homogeneity lemma of finite sums; conversions and their anchor values are "
                "obligations on the real conversion functions with exact rational constants; signs from the real body. "
+               "The composite calculator (_sum_piece, _compute for 1-3 materials, the outer function end to end) is a regrouping of the same atoms: proved equal to the same equations, zeros only for zero mass or density. "
                "Bounded 'relations' re-checks all relations and output shapes on the real code in floats.")
 
 
